@@ -88,6 +88,14 @@ epochLoop:
 
 type EpochToTransactionObjects map[uint64][]*ipldbindcode.Transaction
 
+// ErrNotForAddress can be returned by the fetcher passed to GetBeforeUntil to report that the
+// transaction it loaded does not mention the requested address.
+//
+// The pubkey index keeps no keys, only a 24-bit hash per entry: looking up an address that is not
+// in the index of an epoch can land on the entry (and so on the transaction list) of another address.
+// Only the transactions themselves can tell; the epoch is then treated as having nothing for the address.
+var ErrNotForAddress = errors.New("transaction does not mention the requested address")
+
 // Count returns the number of signatures in the EpochToSignatures.
 func (e EpochToTransactionObjects) Count() int {
 	var count int
@@ -175,6 +183,10 @@ epochLoop:
 			for locIndex, txLoc := range locations {
 				tx, err := fetcher(epochNum, txLoc)
 				if err != nil {
+					if errors.Is(err, ErrNotForAddress) {
+						// the lookup landed on the list of another address: nothing for pk in this epoch.
+						continue epochLoop
+					}
 					return nil, fmt.Errorf("error while getting signature at index=%v: %w", txLoc, err)
 				}
 				sig, err := tx.Signature()
